@@ -21,8 +21,8 @@ MANIFEST = {
     'note': 'Trusted: engine, vf.symcbor, independent writer/reader, z3. Cryptographic verification itself is '
             'abstracted by the nondeterministic outcome (C03/C16 look at what is fed to COSE).',
     'ref': '5 C12'}
-BOUNDS = {'quick': dict(security_blocks='0..2 BIB x 0..2 BCB', outcomes='None | code in [12,16] | raise', real_malformations=9),
-          'thorough': dict(security_blocks='0..3 BIB x 0..3 BCB', outcomes='as quick', real_malformations=9)}
+BOUNDS = {'quick': dict(security_blocks='0..2 BIB x 0..2 BCB', outcomes='None | code in [12,16] | raise', real_malformations=11),
+          'thorough': dict(security_blocks='0..3 BIB x 0..3 BCB', outcomes='as quick', real_malformations=11)}
 ASSUMPTIONS = [
     'a security context reports failure by a reason code from the BPSec range 12..16 or by raising',
     'the bundle requests a deletion report to a real endpoint so that the recorded reason is observable',
@@ -44,7 +44,7 @@ def cases(tier):
                     continue
                 out.append(dict(kind='stub', nbib=nbib, nbcb=nbcb, accept=accept))
     for m in ('unknown-context', 'missing-target', 'dup-param', 'dup-result', 'result-count', 'garbage-cose', 'no-key',
-              'undecodable-block', 'no-params'):
+              'undecodable-block', 'no-params', 'no-results', 'short-results'):
         for blk in ('bib', 'bcb'):
             out.append(dict(kind='real', malform=m, blk=blk))
     return out
@@ -150,6 +150,11 @@ def harness(case, tier):
             pass     # well-formed message but no key with that kid in the (empty) key store
         elif m == 'no-params':
             params = None     # RFC 9172: the parameter list is optional
+        elif m == 'no-results':
+            results = []      # a target without any result list
+        elif m == 'short-results':
+            targets = [1, 3]  # two targets, one result list
+            blocks.append(dict(type=200, num=3, flags=0, crc_type=0, data=b'\x01\x02'))
         expect_fail = True
         data = sec_block_data(targets, ctxid, params, results)
         if m == 'undecodable-block':
